@@ -114,6 +114,7 @@ func runC13(ctx *core.Ctx, idx int) *core.Result {
 	res := &core.Result{}
 	r := ctx.Rand("c13", idx)
 	g := gen.NewG(r)
+	g.NoRelayoutComment = true // see known finding 24: a comment behind replaced code would make '-'/'+' pairs differ from context lines
 	type variant struct {
 		text  string
 		word  string
